@@ -70,14 +70,21 @@ def r1_single_writer(ctx, F):
         ctx.violation("limit-error-not-returned", adv.loc(c["ln"]), "the clk > max_cycles branch does not return Err")
     # every trace write (index_mut) of the cycle is dominated by the comparison and lies on the ok side
     n = 0
+    cols = set()
     ok_reach = adv.reachable_blocks(ok_t)
     for bi, cal, t in adv.calls():
         if re.search(r"IndexMut::index_mut", cal):
             n += 1
-            ctx.inst(key="tracewrite%d" % t["ln"], nontrivial=False)
+            ctx.inst(key="tracewrite%d" % n, nontrivial=False)
+            a0 = t["args"][0]
+            if "l" in a0:
+                cols |= {f for l, f in adv.backward_slice(a0["l"])["fields"] if str(f).endswith("_trace")}
             if not adv.dominates(c["block"], bi) or bi not in ok_reach or bi in fail_reach:
                 ctx.violation("trace-write-before-limit-check|%d" % n, adv.loc(t["ln"]), "a trace write in advance_clock is not dominated by the cycle-limit comparison")
-    ctx.floor("trace-writes-in-advance_clock", n, 8)
+    # the anchor is the set of system trace columns written (not the number of syntactic write sites: a loop over the four
+    # fn_hash columns is one site)
+    ctx.analysed("advance_clock writes the trace columns %s through %d write sites" % (sorted(cols), n))
+    ctx.floor("trace-columns-written-in-advance_clock", len(cols), 5)
 
 
 def r1b_callers(ctx, F):
